@@ -18,7 +18,7 @@ META = {
     "rule": (
         "Case = one map or parallel call (0-6 branches) with a generated CompletionConfig (min_successful in {None,1..n+1} "
         "x tolerated count {None,0..n} x tolerated percentage {None,0,25,50,100}, plus the presets and 'no config'), "
-        "max_concurrency {None,1..n+1}, per-branch behaviour {succeed v, fail e, suspend on a wait/callback, park on a 1 s timer and get resumed inside the invocation, slow, block on "
+        "max_concurrency {None,1..n+1}, per-branch behaviour {succeed v, succeed with a result larger than the checkpoint limit (patched to 600 from the test side), fail e, suspend on a wait/callback, park on a 1 s timer and get resumed inside the invocation, slow, block on "
         "a gate that is opened only AFTER the call returned (only for branches the policy does not need and never under a "
         "tighter concurrency limit)}, completion order chosen by the schedule, followed by a wait so that the next "
         "invocation replays the call. Oracle vs per-branch ground truth and an independent reference of the policy: one "
@@ -77,7 +77,7 @@ def cases(draw):
     mc = draw(st.one_of(st.none(), st.none(), st.integers(1, n + 1)))
     # parallel default config = all_successful; map default = empty config
     eff = norm_cfg(comp) if comp is not None else ({"min": None, "tol": None, "pct": None} if is_map else {"min": None, "tol": 0, "pct": 0})
-    kinds = [draw(st.sampled_from(["ok", "ok", "ok", "fail", "fail", "slow_ok", "slow_ok", "slow_fail", "suspend", "nap", "block"])) for _ in range(n)]
+    kinds = [draw(st.sampled_from(["ok", "ok", "ok", "fail", "fail", "slow_ok", "slow_ok", "slow_fail", "suspend", "nap", "block", "big_ok"])) for _ in range(n)]
     if n >= 2 and draw(st.integers(0, 5)) == 0:
         # all workers busy with slow branches at the instant a timer-parked branch is resumed inside the invocation
         mc = draw(st.integers(1, n - 1))
@@ -89,7 +89,7 @@ def cases(draw):
     else:
         forced_sleep = None
     # construction rule for `block`: only if the policy is decided by the others alone and no tighter concurrency limit
-    succ = sum(1 for k in kinds if k in ("ok", "slow_ok"))
+    succ = sum(1 for k in kinds if k in ("ok", "slow_ok", "big_ok"))
     fail = sum(1 for k in kinds if k in ("fail", "slow_fail"))
     can_block = ref_decided(eff, n, succ, fail) and (succ + fail) < n and (mc is None or mc >= n)
     if not can_block or is_map:
@@ -99,7 +99,11 @@ def cases(draw):
     for i, k in enumerate(kinds):
         v = to_tagged(draw(G.json_values))
         msg = f"err-{i}"
-        if k in ("ok", "slow_ok"):
+        if k == "big_ok":
+            # the branch's own result is larger than the (test-side patched) checkpoint limit
+            b = [{"op": "step", "beh": {"kind": "big", "n": 700, "ch": "z"}, "sem": "least", "retry": {"kind": "none"}}]
+            truth.append(("ok", "z" * 700))
+        elif k in ("ok", "slow_ok"):
             b = [{"op": "step", "beh": {"kind": "ret", "v": v}, "sem": "least", "retry": {"kind": "none"}, **({"sleep": forced_sleep or draw(st.sampled_from([0.2, 0.5, 1.5, 2.5]))} if k == "slow_ok" else {}),
                   "yields": draw(st.integers(0, 2))}]
             truth.append(("ok", v))
@@ -140,6 +144,7 @@ def cases(draw):
         "prog": {"body": body}, "c09": {"path": "root/0" if wrap == "root" else "root/0/0", "n": n, "eff": eff, "truth": truth, "mc": mc, "kinds": kinds, "is_map": is_map},
         "backend": draw(G.backend_cfgs()), "plan": {"crashes": []}, "sched": draw(G.schedules()),
         "line": draw(st.sampled_from([[], [], [], ["executor", "models"]])),
+        **({"limits": {"checkpoint": 600}} if "big_ok" in kinds else {}),
     }
 
 
@@ -204,11 +209,20 @@ def mon_c09(run, case):
             info["_reason"] = reason
         else:
             if not teq(first, br):
-                run.v("C09", "replayed_batch_result_differs", site_cfg, f"{path}: first {first!r}, replay {br!r}")
+                site = site_cfg
+                a, b_ = list(first.all), list(br.all)
+                op = run.backend.ops.get(run.backend.by_path.get(path, ""), {})
+                if op.get("ReplayChildren") and len(a) == len(b_) and all(
+                        (x.status == y.status and teq(x.result, y.result) and teq(x.error, y.error)) or (x.status.value == "STARTED" and y.status.value in ("SUCCEEDED", "FAILED"))
+                        for x, y in zip(a, b_)) and any(x.status.value == "STARTED" and y.status.value != "STARTED" for x, y in zip(a, b_)):
+                    # rebuilt from the children's records: an item that was still running at decision time and
+                    # finished before the parent's completion record was written shows up as finished on replay
+                    site = "replay-children:started-item-finished-before-parent-record"
+                run.v("C09", "replayed_batch_result_differs", site, f"{path}: first {first!r}, replay {br!r}"[:3000])
     # not too late (suspended branches): if the branches that need no external time already decide the policy, the
     # call must return in the first invocation instead of suspending the execution
     kinds = info["kinds"]
-    q_s = sum(1 for k in kinds if k in ("ok", "slow_ok"))
+    q_s = sum(1 for k in kinds if k in ("ok", "slow_ok", "big_ok"))
     q_f = sum(1 for k in kinds if k in ("fail", "slow_fail"))
     if n and ref_decided(eff, n, q_s, q_f):
         first_obs = next((o for o in run.obs if o["path"] == path and o["inv"] == 0), None)
@@ -247,6 +261,8 @@ def classes(run, case):
         out.append("blocked-branch")
     if "suspend" in info["kinds"]:
         out.append("suspending-branch")
+    if "big_ok" in info["kinds"]:
+        out.append("branch-result-above-checkpoint-limit")
     if "nap" in info["kinds"]:
         out.append("timer-parked-branch")
         seen = set()
@@ -393,4 +409,7 @@ _wf_min = minimise  # noqa: F821
 
 
 def minimise(entry):
-    return entry if "pure" in entry["case"] else _wf_min(entry)
+    if "pure" in entry["case"]:
+        return entry
+    # the per-branch ground truth (case["c09"]) is tied to the program: shrink schedule/backend only
+    return WC.minimise_case(entry, PROPS, EXTRA_MONITORS, shrink_prog=False)  # noqa: F821
